@@ -72,7 +72,7 @@ def main(ctx):
         cases = ctx.gen_exec(bindir, "c09", 0, extra_gen=("sr",), exec_args=("exec-sr",), inputs=sr_replay or None)
         ctx.correspond("SliceRange", GROUP, REQ, cases, classify=classify, show="show", shard=1000, fn_name="LayoutOps.{sr_clamp,sr_resolve,sr_steps,sr_index_range,slice,slice_copy}")
     if replay is None or ch_replay:
-        cases = ctx.gen_exec(bindir, "c09", ctx.n(2000, 40000), inputs=ch_replay or None)
+        cases = ctx.gen_exec(bindir, "c09", ctx.n(2000, 16000), inputs=ch_replay or None)
         ctx.correspond("layout-chains", GROUP, REQ, cases, classify=classify, show="show", shard=250,
                        fn_name="LayoutOps.apply_op (slice, permuted, broadcast, merge_axes, split, ...)")
     if failed and not ctx.violations:
